@@ -18,6 +18,7 @@ from .engine_p import ProcessSim, bootstrap
 
 ID = "C08"
 ENGINE = "P"
+ISOLATE = True  # every run in a forked child of the warmed parent
 RUNS = {"quick": 240, "thorough": 4000}
 BATCH_WALL_CAP = {"quick": 2400, "thorough": 8 * 3600}
 RUN_WALL_CAP = 900
@@ -342,8 +343,12 @@ def run_batch(ctx, b):
         if var["fail"] and cfg["fail"] and region is None:
             fpos = min(len(units) - 1, int(cfg["fail"]["pos"] * len(units)))
             fail_key = want_keys[fpos]
-            if cfg["fail"]["kind"] == "real" and program == "assemble" and cfg["dataset"] == "synthetic":
-                dsv = real_bad_dataset(b, ds, units[fpos])
+            with_snv = [u for u in units if ds.get("locus_snvs") and ds["locus_snvs"][u]]
+            if cfg["fail"]["kind"] == "real" and program == "assemble" and cfg["dataset"] == "synthetic" and with_snv:
+                # the locus must have an SNV for an alignment to contradict: take the nearest such locus
+                u_bad = min(with_snv, key=lambda u: abs(units.index(u) - fpos))
+                fail_key = unit_keys[u_bad]
+                dsv = real_bad_dataset(b, ds, u_bad)
                 ctx.counters.inc("failing_locus_real")
             else:
                 def before(locus, _k=fail_key):
@@ -381,11 +386,7 @@ def real_bad_dataset(b, ds, locus_index):
     c, a, e, name = ds["loci"][locus_index]
     snv = ds["locus_snvs"][locus_index]
     if not snv:
-        # a locus without SNVs cannot fail this way: fall back to the first locus that has one
-        for k, s in enumerate(ds["locus_snvs"]):
-            if s:
-                return real_bad_dataset(b, ds, k)
-        raise HarnessError("dataset has no SNV at all")
+        raise HarnessError("real_bad_dataset called for a locus without SNVs")
     s0 = ds["samples"][0]
     src = ds["bams"][s0]
     dst = b.path(".bam")
